@@ -245,6 +245,8 @@ func genC12(r *simrt.RNG) *Case {
 	}
 	if r.Intn(10) == 0 {
 		pl.Reg = true
+	} else if r.Intn(12) == 0 {
+		pl.Fresh, pl.Struct = true, true // first-use paths (type registration) under concurrency
 	}
 	oddNames(r, &pl)
 	n := r.Intn(6*pl.Chunk + 1)
@@ -256,6 +258,12 @@ func genC12(r *simrt.RNG) *Case {
 	}
 	if rare(r, 10) && pl.Chunk <= 4 {
 		n = pl.Chunk*r.Range(7, 14) + r.Intn(pl.Chunk+1) // many chunks: pool and hand-off channel cycle several times
+	}
+	if rare(r, 120) {
+		// hundreds of run files in one cycle (growth of the file list past
+		// any preallocated capacity)
+		pl.Chunk = r.Pick(1, 1, 2)
+		n = pl.Chunk * r.Pick(129, 130, 200, 257, 300)
 	}
 	pl.Cycles = []MCycle{{Keys: genKeys(r, n), Drain: -1}}
 	if r.Intn(6) == 0 {
